@@ -330,3 +330,21 @@ def finish(pid, tier, seed, res, kinds_now, level_claimed, assumptions, bounded_
     print(f"[{pid}] {n_dis}/{n_obl} obligations discharged, solver time {solver_time:.1f}s, level={level}, "
           f"violations={nviol}, known={len(res.known)}, exit={exit_code}, wall={time.time() - res.t0:.1f}s")
     return exit_code
+
+
+def cli_grid(res, pid, tier, seed, known, quick=24, thorough=200, kinds=None):
+    """Shared bounded stand-in at the command-line level (native/cli_grid.py); only failures tagged with
+    this property are reported.  Never counted as proved."""
+    r = run_native("cli_grid.py", {"seed": seed, "count": quick if tier == "quick" else thorough, "props": kinds or [pid]},
+                   timeout=3000)
+    js = r["json"]
+    if js is None:
+        res.errors.append(("crash", "cli_grid.py: " + r["stderr"][-800:]))
+        return
+    mine = [f for f in js["failures"] if f["property"] == pid]
+    res.native.append({"name": f"command-line grid for {pid} (oracles from the statement)", "bounded": True, "cases": js["cases"],
+                       "distinct_nontrivial": js["distinct_nontrivial"], "bounds": js["bounds"], "failures": mine[:5],
+                       "samples": js["samples"][:2]})
+    if mine:
+        path = write_replay(pid, "cli_grid", {"property": pid, "obligation": "bounded:cli_grid", "failing_input": mine[0], "all": mine[:5]})
+        res.violations.append({"replay": path})
